@@ -2123,7 +2123,29 @@ class Interp:
     def ex_GeneratorExp(self, e, fr):
         if self._gen_over_symbolic(e, fr):
             return _LazyGen(e, fr)
+        cs = self._chars_of_bytes(e, fr)
+        if cs is not None:
+            return cs
         return SList(self.comp(e, fr))
+
+    def _chars_of_bytes(self, e, fr):
+        """`chr(b) for b in <bytes>` over a symbolic byte string: the character sequence with the same code points (bytes and str
+        share one representation); consumed by ''.join(...)"""
+        if len(e.generators) != 1 or e.generators[0].ifs or not isinstance(e.generators[0].target, ast.Name):
+            return None
+        elt = e.elt
+        if not (isinstance(elt, ast.Call) and isinstance(elt.func, ast.Name) and elt.func.id == 'chr' and len(elt.args) == 1 and not elt.keywords
+                and isinstance(elt.args[0], ast.Name) and elt.args[0].id == e.generators[0].target.id):
+            return None
+        try:
+            if fr.lookup('chr') is not __import__('builtins').chr:
+                return None
+        except Unsupported:
+            pass
+        itv = self.eval(e.generators[0].iter, fr)
+        if isinstance(itv, Sym) and itv.kind == 'bytes':
+            return _CharSeq(itv.t)
+        return None
 
     def _gen_over_symbolic(self, e, fr):
         try:
@@ -2379,6 +2401,13 @@ class _IterState:
         if v.rev:
             return z3.And(k > self.q, k < v.hi)
         return z3.And(k >= v.lo, k < self.q)
+
+
+class _CharSeq:
+    """the characters chr(b) for the bytes b of a symbolic byte string"""
+
+    def __init__(self, t):
+        self.t = t
 
 
 class _LazyGen:
